@@ -13,10 +13,10 @@ def plan(tier):
         I.append(inst(f"words[n=2,len=4,first={f}]", 'harness.c05', 'word_hom', dict(n=2, maxlen=4, lo=4, first=f), weight=30, timeout_s=900))
     if not q:
         for f in "abAB":
-            I.append(inst(f"words[n=2,len=5,first={f}]", 'harness.c05', 'word_hom', dict(n=2, maxlen=5, lo=5, first=f), weight=100, timeout_s=2400))
-        I.append(inst("words[n=3,len<=2]", 'harness.c05', 'word_hom', dict(n=3, maxlen=2), weight=100, timeout_s=2400))
+            I.append(inst(f"words[n=2,len=5,first={f}]", 'harness.c05', 'word_hom', dict(n=2, maxlen=5, lo=5, first=f), weight=100, timeout_s=1500))
+        I.append(inst("words[n=3,len<=2]", 'harness.c05', 'word_hom', dict(n=3, maxlen=2), weight=100, timeout_s=1500))
         for f in "abAB":
-            I.append(inst(f"words[n=3,len=3,first={f}]", 'harness.c05', 'word_hom', dict(n=3, maxlen=3, lo=3, first=f), weight=200, timeout_s=3000))
+            I.append(inst(f"words[n=3,len=3,first={f}]", 'harness.c05', 'word_hom', dict(n=3, maxlen=3, lo=3, first=f), weight=200, timeout_s=1500))
     I.append(inst("words[n=1,len<=4]", 'harness.c05', 'word_hom', dict(n=1, maxlen=4), weight=5, timeout_s=600))
     I.append(inst("words[n=2,order=ba,reassign]", 'harness.c05', 'word_hom', dict(n=2, maxlen=2, order='ba', reassign=True), weight=5))
     I.append(inst("words[n=2,complex,len<=2]", 'harness.c05', 'word_hom', dict(n=2, maxlen=2, complex_=True), weight=80, timeout_s=900))
@@ -30,7 +30,7 @@ def plan(tier):
             I.append(inst(f"derived[{w},n=2,len<=3]", 'harness.c05', 'derived', dict(which=w, n=2, maxlen=3), weight=60, timeout_s=1800))
     I.append(inst("fox[n=2,len<=3]", 'harness.c05', 'fox', dict(n=2, maxlen=3), weight=18, timeout_s=600))
     if not q:
-        I.append(inst("fox[n=2,len<=4]", 'harness.c05', 'fox', dict(n=2, maxlen=4), weight=100, timeout_s=2400))
+        I.append(inst("fox[n=2,len<=4]", 'harness.c05', 'fox', dict(n=2, maxlen=4), weight=100, timeout_s=1500))
     I.append(inst("cocycle[n=2]", 'harness.c05', 'cocycle', dict(n=2)))
     if not q:
         I.append(inst("cocycle[n=3]", 'harness.c05', 'cocycle', dict(n=3), weight=20, timeout_s=900))
